@@ -5,6 +5,7 @@ import (
 	"fmt"
 	"io"
 	"os"
+	"path/filepath"
 	"strings"
 
 	"github.com/zerx-lab/wordZero/pkg/document"
@@ -20,33 +21,110 @@ func isSect(e interface{}) bool {
 	return ok
 }
 
+// dstate is one live document of a history together with its reference model.
+type dstate struct {
+	name    string
+	x       *ops.Exec
+	doc     *document.Document
+	model   []interface{}
+	removed []*document.Paragraph
+	fp      []uint64 // content fingerprints of the model's elements before the call (nil = to be taken)
+
+	appends, okRemovals, failedRemovals int
+	kindsSeen                           map[string]bool
+	sectBeforeAppend                    bool
+}
+
+func (s *dstate) hasSect() bool {
+	for _, e := range s.model {
+		if isSect(e) {
+			return true
+		}
+	}
+	return false
+}
+
+// call is one API call of the expanded history: op i of the case (its r-th repetition) on document on.
+type call struct {
+	i, r, n, mode, on int // n: number of repetitions of op i
+	op                ops.Op
+}
+
+// marker makes the text of a mode-0 append unique within the history.
+func (c call) marker() string {
+	m := fmt.Sprintf("#%d", c.i)
+	if c.r > 0 {
+		m += fmt.Sprintf(".%d", c.r)
+	}
+	if c.on > 0 {
+		m += fmt.Sprintf("@%d", c.on)
+	}
+	return m
+}
+
+const maxDocs = 3
+
+var onTag = map[string]string{"1": "@1", "2": "@2"}
+
+const maxRep = 80
+
 func run(c Case) *kit.Result {
 	res := &kit.Result{}
 	document.VerifResetGlobals()
 	dir, _ := os.MkdirTemp(kit.Scratch, "c08-")
 	defer os.RemoveAll(dir)
-	x := ops.NewExec(dir)
-	var model []interface{}
+	var states [maxDocs]*dstate
+	var raw []byte
 	if c.Base != nil {
-		// the history starts from a document another producer wrote
-		raw, err := c.Base.docx()
-		if err != nil {
+		var err error
+		if raw, err = c.Base.docx(); err != nil {
 			res.Count("base-not-written", 1)
 			return res
 		}
+	}
+	// open makes a document of the package another producer wrote (the start of document 0 and, with PeerOpen,
+	// of the other documents of the history as well)
+	open := func() (*document.Document, bool) {
 		var d *document.Document
+		var err error
 		if p, st := kit.Try(func() { d, err = document.OpenFromMemory(io.NopCloser(bytes.NewReader(raw))) }); p != nil {
 			res.Fail("C08.L0", "OpenFromMemory of the start document panicked: %v [%s]", p, st)
-			return res
+			return nil, false
 		}
 		if err != nil || d == nil || d.Body == nil {
 			res.Count("base-not-opened", 1) // what Open accepts is not this property's subject
-			return res
+			return nil, false
 		}
-		x.Doc = d
-		x.Paras = d.Body.GetParagraphs()
-		x.Tables = d.Body.GetTables()
-		model = append(model, d.Body.Elements...)
+		return d, true
+	}
+	newState := func(k int) *dstate {
+		sub := filepath.Join(dir, fmt.Sprintf("d%d", k))
+		os.MkdirAll(sub, 0o755)
+		s := &dstate{name: fmt.Sprintf("%d", k), kindsSeen: map[string]bool{}}
+		if c.Base != nil && (k == 0 || c.PeerOpen) {
+			d, ok := open()
+			if !ok {
+				return nil
+			}
+			s.x = &ops.Exec{Doc: d, Dir: sub}
+			s.x.Paras = d.Body.GetParagraphs()
+			s.x.Tables = d.Body.GetTables()
+			s.model = append(s.model, d.Body.Elements...)
+			if k > 0 {
+				res.Label("peer-opened-from-the-same-package")
+			}
+		} else {
+			s.x = ops.NewExec(sub)
+		}
+		s.doc = s.x.Doc
+		return s
+	}
+	if states[0] = newState(0); states[0] == nil {
+		return res
+	}
+	if c.Base != nil {
+		// the history starts from a document another producer wrote
+		d, model := states[0].doc, states[0].model
 		res.Label("opened-base")
 		ns, content := 0, 0
 		for _, e := range model {
@@ -68,36 +146,101 @@ func run(c Case) *kit.Result {
 		if w, _ := c.Base.written(); w == content {
 			res.Label("opened-list-has-every-written-child")
 		}
+		if len(model) > 16 {
+			res.Label("opened-with-over-16-elements")
+		}
+		if len(model) > 32 {
+			res.Label("opened-with-over-32-elements")
+		}
 		if !checkSave(res, d, model, "saved as opened") {
 			return res
 		}
 	}
-	doc := x.Doc
+	// a further document of the process that the history never edits: the source of foreign handles. It is a
+	// live document like the others: no call on another document may change it.
 	other := document.New()
 	foreign := other.AddParagraph("foreign")
-	var removed []*document.Paragraph
-	hasSect := func() bool {
-		for _, e := range model {
-			if isSect(e) {
-				return true
+	otherState := &dstate{name: "F (the never-edited document that supplies foreign handles)", doc: other, model: []interface{}{foreign}}
+	live := func() []*dstate {
+		out := make([]*dstate, 0, maxDocs+1)
+		for _, s := range states {
+			if s != nil {
+				out = append(out, s)
 			}
 		}
-		return false
+		return append(out, otherState)
 	}
-	appends, kindsSeen, okRemovals, failedRemovals, sectBeforeAppend, sectMiddle := 0, map[string]bool{}, 0, 0, false, false
+	// documents 1.. are created when the first call addresses them (so: in the middle of the history of the others)
+	created := 1
+	stateOf := func(on int) *dstate {
+		if on < 0 || on >= maxDocs {
+			on = 0
+		}
+		if states[on] == nil {
+			if states[on] = newState(on); states[on] == nil {
+				return nil
+			}
+			created++
+			res.Label("several-documents")
+			if len(states[0].model) > 0 {
+				res.Label("document-created-while-another-has-content")
+			}
+		}
+		return states[on]
+	}
+	// the expanded history: op i is repeated Rep[i] times (each repetition is a call of its own, judged like any other)
+	var calls []call
+	for i, op := range c.Ops {
+		cl := call{i: i, op: op}
+		if i < len(c.Mode) {
+			cl.mode = c.Mode[i]
+		}
+		if i < len(c.On) {
+			cl.on = c.On[i]
+		}
+		n := 1
+		if i < len(c.Rep) && c.Rep[i] > 1 {
+			if n = c.Rep[i]; n > maxRep {
+				n = maxRep
+			}
+			res.Label("repeated-call")
+		}
+		cl.n = n
+		for r := 0; r < n; r++ {
+			cl.r = r
+			calls = append(calls, cl)
+		}
+	}
+	sectMiddle := false
 	var shape []string
 	if c.Base != nil {
 		shape = append(shape, fmt.Sprintf("base:%d:%d", len(c.Base.Blocks), c.Base.BodySect))
 	}
-	var fp []uint64 // content fingerprints of the model's elements before the call (nil = to be taken)
-	for i, op := range c.Ops {
+	var last *dstate
+	switches := 0
+	for _, cl := range calls {
+		i, op := cl.i, cl.op
+		s := stateOf(cl.on)
+		if s == nil {
+			return res
+		}
+		doc, x := s.doc, s.x
+		if last != nil && last != s {
+			switches++
+		}
+		last = s
+		for _, o := range live() { // every live document's contents as they are before the call
+			if o != s && o.fp == nil {
+				o.fp = fingers(o.model)
+			}
+		}
 		before := append([]interface{}(nil), doc.Body.Elements...)
-		if !same(before, model) {
+		if !same(before, s.model) {
 			res.Fail("C08.L1", "before op %d the body is not the model", i)
 			return res
 		}
-		if fp == nil { // the previous call was allowed to change element content (or there was none)
-			fp = fingers(model)
+		if s.fp == nil { // the previous call was allowed to change element content (or there was none)
+			s.fp = fingers(s.model)
 		}
 		// undisturbed reports the first element of the model (other than skip / section settings when
 		// exceptSect) whose content differs from what it was before the call (now = the list after the call, in which element skip is gone).
@@ -105,7 +248,7 @@ func run(c Case) *kit.Result {
 		undisturbed := func(now []interface{}, skip int, exceptSect bool) (int, bool) {
 			fpNow = make([]uint64, 0, len(now))
 			j := 0
-			for k := range model {
+			for k := range s.model {
 				if k == skip {
 					continue
 				}
@@ -113,7 +256,7 @@ func run(c Case) *kit.Result {
 					break
 				}
 				f := finger(now[j])
-				if !(exceptSect && isSect(model[k])) && f != fp[k] {
+				if !(exceptSect && isSect(s.model[k])) && f != s.fp[k] {
 					return k, false
 				}
 				fpNow = append(fpNow, f)
@@ -124,10 +267,7 @@ func run(c Case) *kit.Result {
 			}
 			return -1, true
 		}
-		mode := 0
-		if i < len(c.Mode) {
-			mode = c.Mode[i]
-		}
+		mode := cl.mode
 		grp := kindGroup[op.K]
 		if grp == "" {
 			grp = "other"
@@ -141,15 +281,15 @@ func run(c Case) *kit.Result {
 			case mode == 2 && textKinds[op.K]:
 				op.S = append([]string{""}, op.S[1:]...)
 			default:
-				op.S = append([]string{fmt.Sprintf("%s#%d", op.S[0], i)}, op.S[1:]...)
+				op.S = append([]string{op.S[0] + cl.marker()}, op.S[1:]...)
 			}
 			if textKinds[op.K] && op.S[0] == "" {
 				res.Label("empty-text-append")
 				if op.K == "footnote" || op.K == "endnote" {
 					res.Label("empty-text-note")
 				}
-				if len(model) > 0 {
-					if _, ok := model[len(model)-1].(*document.Paragraph); ok {
+				if len(s.model) > 0 {
+					if _, ok := s.model[len(s.model)-1].(*document.Paragraph); ok {
 						res.Label("empty-text-append-after-paragraph")
 					}
 				}
@@ -183,7 +323,7 @@ func run(c Case) *kit.Result {
 		case "rmhandle":
 			var h *document.Paragraph
 			paras := []*document.Paragraph{}
-			for _, e := range model {
+			for _, e := range s.model {
 				if p, ok := e.(*document.Paragraph); ok {
 					paras = append(paras, p)
 				}
@@ -194,15 +334,37 @@ func run(c Case) *kit.Result {
 					h = paras[ops.In(iv(0), len(paras))]
 				}
 			case "removed":
-				if len(removed) > 0 {
-					h = removed[ops.In(iv(0), len(removed))]
+				if len(s.removed) > 0 {
+					h = s.removed[ops.In(iv(0), len(s.removed))]
 				}
 			case "foreign":
 				h = foreign
+			case "peer":
+				// a paragraph that is in the body of ANOTHER live document of this history
+				var pp []*document.Paragraph
+				for _, o := range live() {
+					if o != s {
+						for _, e := range o.model {
+							if p, ok := e.(*document.Paragraph); ok {
+								pp = append(pp, p)
+							}
+						}
+					}
+				}
+				h = pp[ops.In(iv(0), len(pp))] // never empty: the foreign document holds one paragraph
+			case "copy":
+				// a paragraph object that says exactly what a paragraph of this body says but is not in the body
+				if len(paras) > 0 {
+					cp := *paras[ops.In(iv(0), len(paras))]
+					h = &cp
+					if len(paras) > 1 {
+						res.Label("rmhandle:copy-of-one-of-several")
+					}
+				}
 			}
 			expectRemove = -1
 			if h != nil {
-				if j := idx(model, h); j >= 0 {
+				if j := idx(s.model, h); j >= 0 {
 					expectRemove = j
 				}
 			}
@@ -211,7 +373,7 @@ func run(c Case) *kit.Result {
 			pan, st = kit.Try(func() { ret = doc.RemoveParagraph(h) })
 		case "rmparaat":
 			np := 0
-			for _, e := range model {
+			for _, e := range s.model {
 				if _, ok := e.(*document.Paragraph); ok {
 					np++
 				}
@@ -219,7 +381,7 @@ func run(c Case) *kit.Result {
 			k := ops.Sel(iv(0), np)
 			expectRemove = -1
 			cnt := 0
-			for j, e := range model {
+			for j, e := range s.model {
 				if _, ok := e.(*document.Paragraph); ok {
 					if cnt == k {
 						expectRemove = j
@@ -232,9 +394,9 @@ func run(c Case) *kit.Result {
 			}
 			pan, st = kit.Try(func() { ret = doc.RemoveParagraphAt(k) })
 		case "rmelemat":
-			k := ops.Sel(iv(0), len(model))
+			k := ops.Sel(iv(0), len(s.model))
 			expectRemove = -1
-			if k >= 0 && k < len(model) {
+			if k >= 0 && k < len(s.model) {
 				expectRemove = k
 			} else {
 				res.Label("rm-out-of-range")
@@ -279,7 +441,9 @@ func run(c Case) *kit.Result {
 			grp += "-err"
 		}
 		after := doc.Body.Elements
-		shape = append(shape, op.K+":"+grp)
+		if e := op.K + ":" + grp + onTag[s.name]; cl.r == 0 || len(shape) == 0 || shape[len(shape)-1] != e {
+			shape = append(shape, e) // (a repeated call with the same outcome is one entry)
+		}
 		switch {
 		case err != nil:
 			// L5: a rejected call is neither an append nor a removal: the list is as before, element for element
@@ -288,32 +452,32 @@ func run(c Case) *kit.Result {
 			res.Label("rejected-call")
 			if strings.HasPrefix(grp, "section") {
 				res.Label("rejected-page-call")
-				if !hasSect() {
+				if !s.hasSect() {
 					res.Label("rejected-page-call-before-any-sectPr")
 				}
 			}
-			if !same(after, model) {
+			if !same(after, s.model) {
 				// the convenience setters read the current settings through GetPageSettings, which creates the
 				// section element: known (see findings.go). The run goes on past it while the finding is open.
-				if leakKinds[op.K] && !hasSect() && len(after) == len(model)+1 && same(after[:len(model)], model) && isSect(after[len(model)]) {
-					res.Fail("C08.L5", "op %d %s returned an error (%v) but appended section settings to the body (len %d -> %d) [setter-leak op=%d kind=%s]", i, op.K, err, len(model), len(after), i, op.K)
+				if leakKinds[op.K] && !s.hasSect() && len(after) == len(s.model)+1 && same(after[:len(s.model)], s.model) && isSect(after[len(s.model)]) {
+					res.Fail("C08.L5", "op %d %s returned an error (%v) but appended section settings to the body (len %d -> %d) [setter-leak op=%d kind=%s]", i, op.K, err, len(s.model), len(after), i, op.K)
 					if !openKF[kfSetterLeak] {
 						return res
 					}
-					model = append(model, after[len(model)])
-					fp = nil
+					s.model = append(s.model, after[len(s.model)])
+					s.fp = nil
 					continue
 				}
-				res.Fail("C08.L5", "op %d %s returned an error (%v) but changed the body's element list (len %d -> %d)", i, op.K, err, len(model), len(after))
+				res.Fail("C08.L5", "op %d %s returned an error (%v) but changed the body's element list (len %d -> %d)", i, op.K, err, len(s.model), len(after))
 				return res
 			}
 			if k, ok := undisturbed(after, -1, false); !ok {
-				res.Fail("C08.L5", "op %d %s returned an error (%v) but changed the content of element %d (%s)", i, op.K, err, k, describe(model[k]))
+				res.Fail("C08.L5", "op %d %s returned an error (%v) but changed the content of element %d (%s)", i, op.K, err, k, describe(s.model[k]))
 				return res
 			}
 		case tocKinds[op.K]:
 			// AutoGenerateTOC / UpdateTOC that succeed: not judged here (C15); the model follows the document
-			model = append([]interface{}(nil), after...)
+			s.model = append([]interface{}(nil), after...)
 			res.Count("toc-call-not-judged", 1)
 		case grp == "remove":
 			res.Eval("C08.L3")
@@ -322,21 +486,21 @@ func run(c Case) *kit.Result {
 					res.Fail("C08.L3", "op %d %s: target exists at element index %d but the call reported failure", i, op.K, expectRemove)
 					return res
 				}
-				want := append(append([]interface{}(nil), model[:expectRemove]...), model[expectRemove+1:]...)
+				want := append(append([]interface{}(nil), s.model[:expectRemove]...), s.model[expectRemove+1:]...)
 				if !same(after, want) {
-					res.Fail("C08.L3", "op %d %s reported success but did not remove exactly element %d (len %d -> %d)", i, op.K, expectRemove, len(model), len(after))
+					res.Fail("C08.L3", "op %d %s reported success but did not remove exactly element %d (len %d -> %d)", i, op.K, expectRemove, len(s.model), len(after))
 					return res
 				}
 				if k, ok := undisturbed(after, expectRemove, false); !ok {
-					res.Fail("C08.L3", "op %d %s removed element %d and also changed the content of element %d (%s)", i, op.K, expectRemove, k, describe(model[k]))
+					res.Fail("C08.L3", "op %d %s removed element %d and also changed the content of element %d (%s)", i, op.K, expectRemove, k, describe(s.model[k]))
 					return res
 				}
-				if p, ok := model[expectRemove].(*document.Paragraph); ok {
-					removed = append(removed, p)
+				if p, ok := s.model[expectRemove].(*document.Paragraph); ok {
+					s.removed = append(s.removed, p)
 				}
-				model = want
-				okRemovals++
-				if appends >= 4 {
+				s.model = want
+				s.okRemovals++
+				if s.appends >= 4 {
 					res.Label("removal-after-4-appends")
 				}
 			} else {
@@ -344,36 +508,36 @@ func run(c Case) *kit.Result {
 					res.Fail("C08.L3", "op %d %s: target %v does not exist but the call reported success", i, op.K, target)
 					return res
 				}
-				if !same(after, model) {
-					res.Fail("C08.L3", "op %d %s reported failure but changed the body (len %d -> %d)", i, op.K, len(model), len(after))
+				if !same(after, s.model) {
+					res.Fail("C08.L3", "op %d %s reported failure but changed the body (len %d -> %d)", i, op.K, len(s.model), len(after))
 					return res
 				}
 				if k, ok := undisturbed(after, -1, false); !ok {
-					res.Fail("C08.L3", "op %d %s reported failure but changed the content of element %d (%s)", i, op.K, k, describe(model[k]))
+					res.Fail("C08.L3", "op %d %s reported failure but changed the content of element %d (%s)", i, op.K, k, describe(s.model[k]))
 					return res
 				}
-				failedRemovals++
+				s.failedRemovals++
 			}
 		case grp == "append":
 			res.Eval("C08.L1")
-			if len(after) < len(model) || !same(after[:len(model)], model) {
-				res.Fail("C08.L1", "op %d %s disturbed the existing elements (len %d -> %d)", i, op.K, len(model), len(after))
+			if len(after) < len(s.model) || !same(after[:len(s.model)], s.model) {
+				res.Fail("C08.L1", "op %d %s disturbed the existing elements (len %d -> %d)", i, op.K, len(s.model), len(after))
 				return res
 			}
 			// GenerateTOC is not one of the constructors the statement lists; what it may do to the headings it indexes is C15's
 			if op.K != "toc" {
 				if k, ok := undisturbed(after, -1, false); !ok {
-					res.Fail("C08.L1", "op %d %s changed the content of element %d, which was already there (it now reads %q)", i, op.K, k, describe(model[k]))
+					res.Fail("C08.L1", "op %d %s changed the content of element %d, which was already there (it now reads %q)", i, op.K, k, describe(s.model[k]))
 					return res
 				}
 			}
-			grown := after[len(model):]
+			grown := after[len(s.model):]
 			if len(grown) == 0 {
 				res.Fail("C08.L1", "op %d %s succeeded but appended nothing", i, op.K)
 				return res
 			}
 			for _, e := range grown {
-				if idx(model, e) >= 0 {
+				if idx(s.model, e) >= 0 {
 					res.Fail("C08.L1", "op %d %s appended an element that is already in the body", i, op.K)
 					return res
 				}
@@ -386,27 +550,27 @@ func run(c Case) *kit.Result {
 				res.Fail("C08.L1", "op %d AddElement did not append exactly the given element", i)
 				return res
 			}
-			appends++
-			kindsSeen[op.K] = true
-			if hasSect() {
-				sectBeforeAppend = true
+			s.appends++
+			s.kindsSeen[op.K] = true
+			if s.hasSect() {
+				s.sectBeforeAppend = true
 				sectMiddle = true
 			}
 			if len(grown) > 1 {
 				res.Label("multi-element-append")
 			}
-			model = append(model, grown...)
+			s.model = append(s.model, grown...)
 		case grp == "section":
 			res.Eval("C08.L1")
-			if len(after) < len(model) || !same(after[:len(model)], model) {
+			if len(after) < len(s.model) || !same(after[:len(s.model)], s.model) {
 				res.Fail("C08.L1", "op %d %s (page/header call) disturbed the existing elements", i, op.K)
 				return res
 			}
 			if k, ok := undisturbed(after, -1, true); !ok {
-				res.Fail("C08.L1", "op %d %s (page/header call) changed the content of element %d (%s)", i, op.K, k, describe(model[k]))
+				res.Fail("C08.L1", "op %d %s (page/header call) changed the content of element %d (%s)", i, op.K, k, describe(s.model[k]))
 				return res
 			}
-			grown := after[len(model):]
+			grown := after[len(s.model):]
 			if len(grown) > 1 {
 				res.Fail("C08.L1", "op %d %s appended %d elements", i, op.K, len(grown))
 				return res
@@ -416,23 +580,48 @@ func run(c Case) *kit.Result {
 					res.Fail("C08.L1", "op %d %s appended a %T", i, op.K, grown[0])
 					return res
 				}
-				if hasSect() {
+				if s.hasSect() {
 					res.Fail("C08.L1", "op %d %s created second section settings although the body already has them", i, op.K)
 					return res
 				}
 			}
-			model = append(model, grown...)
+			s.model = append(s.model, grown...)
 		default:
-			if !same(after, model) {
+			if !same(after, s.model) {
 				res.Fail("C08.L1", "op %d %s (not a body-structure call) changed the element list", i, op.K)
 				return res
+			}
+		}
+		// the other live documents of the process are bodies too: a call on this document is neither an append to
+		// nor a removal from them, and it does not disturb the elements already there
+		if cl2 := "C08.L1"; len(live()) > 1 {
+			switch {
+			case err != nil:
+				cl2 = "C08.L5"
+			case grp == "remove":
+				cl2 = "C08.L3"
+			}
+			for _, o := range live() {
+				if o == s {
+					continue
+				}
+				if !same(o.doc.Body.Elements, o.model) {
+					res.Fail(cl2, "op %d %s on document %s changed the element list of document %s, another live document (len %d -> %d)", i, op.K, s.name, o.name, len(o.model), len(o.doc.Body.Elements))
+					return res
+				}
+				for k, e := range o.model {
+					if finger(e) != o.fp[k] {
+						res.Fail(cl2, "op %d %s on document %s changed the content of element %d (%s) of document %s, another live document", i, op.K, s.name, k, describe(e), o.name)
+						return res
+					}
+				}
 			}
 		}
 		// L2 accessors
 		res.Eval("C08.L2")
 		var wp []*document.Paragraph
 		var wt []*document.Table
-		for _, e := range model {
+		for _, e := range s.model {
 			switch v := e.(type) {
 			case *document.Paragraph:
 				wp = append(wp, v)
@@ -457,35 +646,74 @@ func run(c Case) *kit.Result {
 				return res
 			}
 		}
+		switch n := len(s.model); {
+		case n > 64:
+			res.Label("body-over-64-elements")
+			fallthrough
+		case n > 32:
+			res.Label("body-over-32-elements")
+			fallthrough
+		case n > 16:
+			res.Label("body-over-16-elements")
+		}
 		// lists that hold several section elements are where the serialiser has to choose: while the list is in
 		// that state the saved part is judged after every call
 		nsect := 0
-		for _, e := range model {
+		for _, e := range s.model {
 			if isSect(e) {
 				nsect++
 			}
 		}
-		if op.K == "save" || c.Saves == 1 || nsect > 1 {
-			if !checkSave(res, doc, model, fmt.Sprintf("save after op %d (%s)", i, op.K)) {
+		// (of a repeated call only the first and the last repetition are followed by such a save)
+		// and, in the several-section state, only calls that may have changed the list or the section settings)
+		if op.K == "save" || ((c.Saves == 1 || (nsect > 1 && err == nil && grp != "other")) && (cl.r == 0 || cl.r == cl.n-1)) {
+			switch {
+			case op.K == "save":
+				res.Count("saved-parts-judged:save-call", 1)
+			case nsect > 1:
+				res.Count("saved-parts-judged:several-sectPr", 1)
+			default:
+				res.Count("saved-parts-judged:after-every-call", 1)
+			}
+			if !checkSave(res, doc, s.model, fmt.Sprintf("save after op %d (%s)", i, op.K)) {
 				return res
 			}
 		}
-		fp = nil
-		if len(fpNow) == len(model) && (err != nil || grp == "remove" || grp == "append" || grp == "section") && !tocKinds[op.K] {
-			fp = fpNow // judged calls: the list after the call has just been fingerprinted
+		s.fp = nil
+		if len(fpNow) == len(s.model) && (err != nil || grp == "remove" || grp == "append" || grp == "section") && !tocKinds[op.K] {
+			s.fp = fpNow // judged calls: the list after the call has just been fingerprinted
 		}
 	}
-	checkSave(res, doc, model, "final save")
+	for _, s := range live() {
+		if s == otherState {
+			continue // (never edited; its list and contents have been compared after every call)
+		}
+		where := "final save"
+		if created > 1 {
+			where = "final save of document " + s.name
+		}
+		checkSave(res, s.doc, s.model, where)
+	}
 	if sectMiddle {
 		res.Label("sectPr-in-the-middle")
-	}
-	if failedRemovals > 0 {
-		res.Label("failed-removal")
 	}
 	if c.Saves == 1 {
 		res.Label("saved-after-every-call")
 	}
-	res.Nontrivial = okRemovals >= 1 && appends >= 4 && len(kindsSeen) >= 3 && sectBeforeAppend
+	if switches >= 2 {
+		res.Label("documents-edited-alternately")
+	}
+	for _, s := range states {
+		if s == nil {
+			continue
+		}
+		if s.failedRemovals > 0 {
+			res.Label("failed-removal")
+		}
+		if s.okRemovals >= 1 && s.appends >= 4 && len(s.kindsSeen) >= 3 && s.sectBeforeAppend {
+			res.Nontrivial = true
+		}
+	}
 	res.Shape = strings.Join(shape, "|")
 	return res
 }
